@@ -10,15 +10,19 @@ SWAP_ATTR = {"transform": "inverse", "inverse": "transform", "transform_and_log_
              "lower": "upper", "upper": "lower", "shape": "cond_shape", "cond_shape": "shape", "sum": "mean",
              "logical_and": "logical_or", "argmin": "argmax", "x_pos": "y_pos", "y_pos": "x_pos", "any": "all", "all": "any",
              "base_dist": "bijection", "append": "extend", "exp": "log", "log": "exp", "tanh": "arctanh", "arctanh": "tanh"}
+NORMALISERS = {"tuple", "list", "arraylike_to_array", "asarray", "array", "broadcast_to", "unwrap", "stop_gradient", "float", "int",
+               "abs", "sorted", "atleast_1d", "squeeze", "ravel", "astype", "clip", "maximum", "minimum", "softplus", "exp",
+               "log_softmax", "NonTrainable", "non_trainable", "round", "inexact_asarray", "canonicalize_dtype"}
 SWAP_NAME = {"any": "all", "all": "any", "min": "max", "max": "min", "reversed": "list", "sum": "max"}
 
 
 class Collector(ast.NodeVisitor):
     """Enumerates mutation sites as (node index in ast.walk order, operator id, description)."""
 
-    def __init__(self, tree):
+    def __init__(self, tree, extended=False):
         self.sites = []
         self.in_doc = set()
+        self.extended = extended
         for i, n in enumerate(ast.walk(tree)):
             self.index(i, n)
 
@@ -37,6 +41,9 @@ class Collector(ast.NodeVisitor):
                          (ast.NotEq, ast.Eq), (ast.Is, ast.IsNot), (ast.IsNot, ast.Is)):
                 if isinstance(o, a):
                     add(f"cmp:{a.__name__}->{b.__name__}", f"{a.__name__} -> {b.__name__}")
+            if self.extended and isinstance(o, (ast.Is, ast.IsNot)) and isinstance(n.comparators[0], ast.Constant) \
+                    and n.comparators[0].value is None:
+                add("none-test->truthiness", f"`{ast.unparse(n)}` -> truthiness of the operand")
         elif isinstance(n, ast.Constant) and not isinstance(n.value, str) and n.value is not None and n.value is not Ellipsis:
             if isinstance(n.value, bool): add("bool-flip", f"{n.value} -> {not n.value}")
             elif isinstance(n.value, (int, float)):
@@ -49,6 +56,14 @@ class Collector(ast.NodeVisitor):
                 add("swap-args", "swap first two positional arguments")
             if n.keywords:
                 add("drop-kw", f"drop keyword {n.keywords[-1].arg}")
+            if self.extended:
+                # the "tidy-up" operators of round 9: a normalising call removed, any one keyword dropped
+                for j, k in enumerate(n.keywords[:-1]):
+                    if k.arg is not None:
+                        add(f"drop-kw:{j}", f"drop keyword {k.arg}")
+                if n.args and not isinstance(n.args[0], ast.Starred) and isinstance(n.args[0], (ast.Name, ast.Attribute, ast.Subscript)) \
+                        and ast.unparse(n.func).split(".")[-1] in NORMALISERS:
+                    add("unwrap-call", f"{ast.unparse(n.func)}(x, ...) -> x")
         elif isinstance(n, ast.Attribute) and n.attr in SWAP_ATTR:
             add("attr-swap", f".{n.attr} -> .{SWAP_ATTR[n.attr]}")
         elif isinstance(n, ast.Name) and n.id in SWAP_NAME and isinstance(n.ctx, ast.Load):
@@ -91,6 +106,15 @@ def apply(tree, site):
         n.__dict__.clear(); n.__dict__.update(o.__dict__)
     elif op == "swap-args": n.args[0], n.args[1] = n.args[1], n.args[0]
     elif op == "drop-kw": n.keywords = n.keywords[:-1]
+    elif op.startswith("drop-kw:"): del n.keywords[int(op.split(":")[1])]
+    elif op == "unwrap-call":
+        o = n.args[0]
+        n.__class__ = o.__class__
+        n.__dict__.clear(); n.__dict__.update(o.__dict__)
+    elif op == "none-test->truthiness":
+        o = n.left if isinstance(n.ops[0], ast.IsNot) else ast.UnaryOp(ast.Not(), n.left)
+        n.__class__ = o.__class__
+        n.__dict__.clear(); n.__dict__.update(o.__dict__)
     elif op == "attr-swap": n.attr = SWAP_ATTR[n.attr]
     elif op == "name-swap": n.id = SWAP_NAME[n.id]
     elif op == "if-negate": n.test = ast.UnaryOp(ast.Not(), n.test)
